@@ -63,8 +63,8 @@ PROPS = {
         partial=["C02_priority (refinement tree -> outcomes) not proved"]),
     "C03": rt(350, 6000, ["remove", "clean"],
         "histories of 1-14 mutations (40% Remove/Clean, facades, >=5 literal siblings) with state dump, Routes() and one simple witness per pool pattern after every step",
-        props=["C03"],
-        level_text="Theorems on the abstract route table that specifies the lifecycle (C03_remove_frame, C03_remove_all, C03_clean_exact, C03_handle_frame, C03_use_keeps_routes): removal touches exactly the named pattern, Clean(prefix) exactly the patterns with that prefix. Routes()/dispatch of the implementation are compared with this table after every step, with the documented resolver deciding the winner on simple witnesses, and earlier dispatches are re-checked after removals (frame).",
+        props=["C03", "C03find"],
+        level_text="At tree level, every reachable tree: C03_find_sound / C03_find_complete (the lookup used by Remove, URL and the duplicate check finds a node spelling the pattern iff one exists), C03_add_registers (an accepted Handle leaves a node with that pattern carrying the methods, OPTIONS and the 405 handler), C03_remove_effect / C03_remove_others_kept (Remove changes exactly the one node it looked up; every other node keeps pattern, handlers and method set), C03_remove_all_clears_partial, C03_absent_not_found; C03_pattern_once_refuted: with literal text containing unbalanced braces two nodes can spell the same pattern (outside the well-formed quantifier). On the abstract route table (C03_remove_frame, C03_remove_all, C03_clean_exact, C03_handle_frame, C03_use_keeps_routes): removal touches exactly the named pattern, Clean(prefix) exactly the patterns with that prefix. Routes()/dispatch of the implementation are compared with this table after every step, with the documented resolver deciding the winner on simple witnesses, and earlier dispatches are re-checked after removals (frame).",
         level_note="partial: the refinement tree-state -> table (abs commutes with add/remove/clean) is checked by the dump correspondence and the oracles on every step, not proved.",
         partial=["C03_refinement (abs_tree (step t op) = table_step (abs_tree t) op) not proved"]),
     "C04": rt(350, 6000, ["serve-options", "serve-405"],
@@ -109,7 +109,7 @@ PROPS = {
         trust=["middleware factories are symbolic (HWrap terms); the harness's factories record their arguments"]),
     "C10": rt(500, 8000, ["url-ok", "url-err"],
         "well-formed and documented-malformed patterns x params maps (present/missing/extra keys, arbitrary bytes, prefix/suffix/infix matches) x strict/non-strict x live/non-live; through Router and facades",
-        props=["C10"],
+        props=["C10", "C03find"],
         level_text="C10_url_segs_closed_form (URL = segments with parameters substituted, fails iff one is missing), C10_roundtrip (building a matched route from its captured parameters reproduces the path), C10_strict_validates (every parameter kind validated over its whole length), C10_strict_not_a_route.",
         level_note="stated on parsed segments; the agreement of the code's Split with the independent tokenizer is decided by the oracle (instantiate over tokens) on every case."),
     "C11": rt(250, 4000, ["creq"],
@@ -143,7 +143,7 @@ PROPS = {
         level_note="user functions are symbolic (raise tables); panic(nil) excluded; a panicking matcher or recovery function is outside the property."),
     "C17": rt(300, 1500, ["handle-rejected"],
         "tables x Handle calls with valid/duplicate/reserved/unknown methods in every position (45%), malformed patterns (25%), patterns equal up to names; dump + Routes + witnesses + Allow + OPTIONS * before and after every call",
-        props=["C17"],
+        props=["C17", "C03find"],
         level_text="C17_check_methods_ok_iff (a method list is accepted iff all methods are known, not reserved, not registered and not repeated), C17_duplicate_rejected, C17_repeated_method_rejected, C17_add_methods_rejects_before_changing; a rejected call returns an error value and no new state in the model (tree_add : res tree).",
         level_note="partial: 'nothing observable changes' is decided by comparing every observation before/after rejected calls on the implementation (and the dumped tree against the model); the ambiguity clauses are decided by the oracle same_up_to_names.",
         partial=["C17_ambiguous_pair / C17_no_false_ambiguity not proved (oracle only)"]),
